@@ -668,10 +668,21 @@ asn1c_lang_C_type_SET_def(arg_t *arg) {
 		if(tag2el_cxer) free(tag2el_cxer);
 		return -1;
 	}
-	if(tag2el_cxer_count == tag2el_count
-	&& memcmp(tag2el, tag2el_cxer, tag2el_count) == 0) {
-		free(tag2el_cxer);
-		tag2el_cxer = 0;
+	if(tag2el_cxer_count == tag2el_count) {
+		/* The CXER map is only emitted if its order is different */
+		int i;
+		for(i = 0; i < tag2el_count; i++) {
+			const tag2el_t *a = &tag2el[i];
+			const tag2el_t *b = &tag2el_cxer[i];
+			if(a->el_no != b->el_no
+			|| a->el_tag.tag_class != b->el_tag.tag_class
+			|| a->el_tag.tag_value != b->el_tag.tag_value)
+				break;
+		}
+		if(i == tag2el_count) {
+			free(tag2el_cxer);
+			tag2el_cxer = 0;
+		}
 	}
 
 	GEN_INCLUDE_STD("constr_SET");
